@@ -132,4 +132,225 @@ theorem epoch_within_half_unit (Y us : Nat) (hY1 : 1957 ≤ Y) (hY2 : Y ≤ 2056
 example : epochOfAbs (absOfYear 2024 (365 * 86400000000 + 43200000000)) = (24, 36650000000) ∧
     epochOfAbs (absOfYear 1999 (365 * 86400000000 - 1)) = (99, 36600000000) ∧ epochOfAbs (absOfYear 1957 0) = (57, 100000000) := by decide
 
+/-! ## carries and the second generation -/
+
+/-- an angle printed `360.0000` is read as `0.0000` (`% 360` of the writer) -/
+def normAngle (v : Nat) : Nat := if v = 3600000 then 0 else v
+
+/-- what `_unfloat` prints for the value read from a drag term: `00000-9` is zero (`00000-0`), a five-digit mantissa with
+exponent −9 is a canonical term, a shorter one stays as it is -/
+def normUnfl : Unfl → Unfl
+  | .small neg d => if d = 0 then .zero else if d < 10000 then .small neg d else .val neg d (-9)
+  | u => u
+
+/-- the day after the last of the year -/
+def yearEnd (r : Rec) : Bool := r.day8 == (if isLeap (fullYear r.yy) then 367 else 366) * 100000000
+
+/-- the record as the SECOND generation shows it: the same angles modulo 360, the same instant (day 1 of the next year),
+the same drag values -/
+def normRec (r : Rec) : Rec :=
+  { r with yy := if yearEnd r then (fullYear r.yy + 1) % 100 else r.yy,
+           day8 := if yearEnd r then 100000000 else r.day8,
+           ndd := normUnfl r.ndd, bstar := normUnfl r.bstar,
+           inc4 := normAngle r.inc4, raan4 := normAngle r.raan4, argp4 := normAngle r.argp4, ma4 := normAngle r.ma4 }
+
+theorem angle4_wide (v : Nat) (h : v ≤ 3600000) : angle4 ⟨false, v, 4⟩ = .ok (normAngle v) := by
+  by_cases hv : v = 3600000
+  · subst hv; rfl
+  · rw [angle4_grid v (by omega)]; simp [normAngle, hv]
+
+theorem toUnfl_wide {u : Unfl} (h : WideUnfl u) : toUnfl (decOfUnfl u) = normUnfl u := by
+  rcases h with h | ⟨neg, d, rfl, hd⟩
+  · rw [(canon_read h).2]
+    rcases h with rfl | ⟨neg, m5, exp, rfl, _⟩ <;> rfl
+  · simp only [decOfUnfl, normUnfl]
+    by_cases h0 : d = 0
+    · subst h0; rfl
+    · rw [if_neg h0]
+      unfold toUnfl
+      simp only [h0, if_false]
+      by_cases h4 : d < 10000
+      · rw [if_pos h4]
+        have hl : (natStr d).length ≤ 4 := natStr_length_le 4 d (by omega) (by omega)
+        have hs : sig5 d = (d * 10 ^ (5 - (natStr d).length), -((5 - (natStr d).length : Nat) : Int)) := by
+          unfold sig5; rw [if_pos h4]
+        rw [hs]
+        simp only
+        have hk : (-((5 - (natStr d).length : Nat) : Int) + 5 - 14 < -9) := by omega
+        rw [if_pos hk]
+        congr 1
+        unfold decScaled
+        simp
+      · rw [if_neg h4]
+        have hs : sig5 d = (d, 0) := by unfold sig5; rw [if_neg h4, if_pos hd]
+        rw [hs]
+        simp only
+        rw [if_neg (by omega)]
+        congr 1
+
+theorem normYear_yearEnd (Y : Nat) :
+    normYear 8 Y (yearMicros Y) = some (Y + 1, 0) := by
+  show normYear (7 + 1) Y _ = _
+  unfold normYear
+  have h1 : ¬ (yearMicros Y < 0) := by unfold yearMicros; split <;> omega
+  rw [if_neg h1, if_pos (Int.le_refl _)]
+  show normYear (6 + 1) (Y + 1) _ = _
+  unfold normYear
+  have h2 : ¬ (yearMicros (Y + 1) ≤ 0) := by unfold yearMicros; split <;> omega
+  simp [h2]
+
+/-- `Tle.orbit()` and the numeric prelude of `from_orbit` on what `Tle.__init__` made of the written lines of a record
+the writer can print: the record normalised -/
+theorem toRec_expected_wide (r : Rec) (h : WideRange r) (l1 l2 : Str) :
+    toRec { expected r l1 l2 with name := r.name } = .ok (normRec r) := by
+  have hcq : (cosparOf r.cospar = none ∧ r.cospar = []) ∨
+      (∃ cy piece, cy < 100 ∧ cosparOf r.cospar = some (fullYear cy, piece) ∧ r.cospar = fixedDigits 2 cy ++ piece) := by
+    rcases h.cospar with hc | ⟨cy, piece, hcy, hc, _, _, _⟩
+    · left; rw [hc]; exact ⟨rfl, rfl⟩
+    · right
+      obtain ⟨c, t, hct, _, _⟩ := fixedDigits_ends 2 cy (by omega)
+      refine ⟨cy, piece, hcy, ?_, hc⟩
+      unfold cosparOf
+      have hne' : r.cospar.isEmpty = false := by rw [hc, hct]; rfl
+      rw [hne', hc]
+      simp only [Bool.false_eq_true, if_false]
+      rw [List.take_left' (fixedDigits_length 2 cy), List.drop_left' (fixedDigits_length 2 cy), digitsValAux_fixedDigits]
+      simp
+      rw [Nat.mod_eq_of_lt hcy]
+  -- the epoch: (year, microseconds) after `normYear`, the two-digit year and the day field of the second generation
+  have hep : ∃ y us, normYear 8 (fullYear r.yy) (((r.day8 : Int) - 100000000) * 864) = some (y, us) ∧
+      y % 100 = (normRec r).yy ∧
+      ((us / 86400000000 + 1) * 100000000 + roundDiv (us % 86400000000 * 100000000) 86400000000).toNat = (normRec r).day8 := by
+    by_cases hye : yearEnd r = true
+    · have hd8 : r.day8 = (if isLeap (fullYear r.yy) then 367 else 366) * 100000000 := by simpa [yearEnd] using hye
+      have hus : ((r.day8 : Int) - 100000000) * 864 = yearMicros (fullYear r.yy) := by
+        rw [hd8]; unfold yearMicros; split <;> simp <;> omega
+      refine ⟨fullYear r.yy + 1, 0, ?_, ?_, ?_⟩
+      · rw [hus]; exact normYear_yearEnd _
+      · simp [normRec, hye]
+      · simp [normRec, hye]; rfl
+    · have hye' : yearEnd r = false := by simpa using hye
+      have hlt : r.day8 < (if isLeap (fullYear r.yy) then 367 else 366) * 100000000 := by
+        have hne : r.day8 ≠ (if isLeap (fullYear r.yy) then 367 else 366) * 100000000 := by simpa [yearEnd] using hye'
+        have := h.day.2
+        omega
+      obtain ⟨_, hny, hday⟩ := epoch_roundtrip (fullYear r.yy) r.day8 h.day.1 hlt
+      refine ⟨fullYear r.yy, _, hny, ?_, ?_⟩
+      · have hyy : fullYear r.yy % 100 = r.yy := by have := h.yy; unfold fullYear; split <;> omega
+        simp [normRec, hye', hyy]
+      · rw [hday]; simp [normRec, hye']
+  obtain ⟨y, us, hny, hy, hd⟩ := hep
+  have hu1 := toUnfl_wide h.ndd
+  have hu2 := toUnfl_wide h.bstar
+  unfold toRec
+  simp only [expected, hny, bind, Except.bind, pure, Except.pure, angle4_wide _ h.inc, angle4_wide _ h.raan, angle4_wide _ h.argp,
+    angle4_wide _ h.ma, nonneg_grid7, nonneg_grid8, decScaled_grid8, hu1, hu2, hy, hd]
+  rcases hcq with ⟨q1, q2⟩ | ⟨cy, piece, hcy, q1, q2⟩
+  · rw [q1]
+    simp only [normRec]
+    rw [← q2]
+  · rw [q1]
+    simp only [normRec]
+    rw [natStr_fullYear_drop cy hcy, ← q2]
+
+/-- **write → parse for everything the rounding of an off-grid orbit can produce**: for EVERY record the writer can
+print (`WideRange`: the ranges of the format plus `360.0000`, day `N+1.00000000`, drag terms below 1e-10),
+`Tle.from_orbit` succeeds, the `Tle` shows exactly the written lines, and reading it back gives the record normalised
+(`normRec`: `360.0000 → 0.0000`, day 1 of the next year, `00000-9 → 00000-0`) — the same angles, instant and values. -/
+theorem wide_roundtrip (r : Rec) (h : WideRange r) :
+    ∃ p lines, writeRec r = .ok lines ∧ fromOrbit r = .ok p ∧ parseTle lines = .ok p ∧ tleStr p = lines ∧
+      toRec p = .ok (normRec r) :=
+  roundtrip_aux r h (normRec r) (toRec_expected_wide r h)
+
+theorem normUnfl_wide {u : Unfl} (h : WideUnfl u) : WideUnfl (normUnfl u) ∧ normUnfl (normUnfl u) = normUnfl u := by
+  rcases h with h | ⟨neg, d, rfl, hd⟩
+  · have : normUnfl u = u := by rcases h with rfl | ⟨neg, m5, exp, rfl, _⟩ <;> rfl
+    rw [this, this]; exact ⟨Or.inl h, rfl⟩
+  · by_cases h0 : d = 0
+    · have e : normUnfl (.small neg d) = .zero := by simp [normUnfl, h0]
+      rw [e]; exact ⟨Or.inl (Or.inl rfl), rfl⟩
+    · by_cases h4 : d < 10000
+      · have e : normUnfl (.small neg d) = .small neg d := by simp [normUnfl, h0, h4]
+        rw [e, e]; exact ⟨Or.inr ⟨neg, d, rfl, hd⟩, rfl⟩
+      · have e : normUnfl (.small neg d) = .val neg d (-9) := by simp [normUnfl, h0, h4]
+        rw [e]; exact ⟨Or.inl (Or.inr ⟨neg, d, -9, rfl, by omega, hd, by omega, by omega⟩), rfl⟩
+
+theorem normAngle_le (v : Nat) (h : v ≤ 3600000) : normAngle v ≤ 3600000 ∧ normAngle (normAngle v) = normAngle v := by
+  unfold normAngle; split <;> simp_all
+
+theorem normRec_of_not_yearEnd (q : Rec) (hq : yearEnd q = false) :
+    normRec q = { q with ndd := normUnfl q.ndd, bstar := normUnfl q.bstar, inc4 := normAngle q.inc4, raan4 := normAngle q.raan4, argp4 := normAngle q.argp4, ma4 := normAngle q.ma4 } := by
+  unfold normRec
+  simp only [hq, Bool.false_eq_true, if_false]
+
+/-- the second generation is again something the writer can print, and it is a fixed point of the normalisation -/
+theorem second_generation_fixed (r : Rec) (h : WideRange r) : WideRange (normRec r) ∧ normRec (normRec r) = normRec r := by
+  have hyy' : (normRec r).yy < 100 := by
+    simp only [normRec]; split
+    · exact Nat.mod_lt _ (by omega)
+    · exact h.yy
+  have hday : 100000000 ≤ (normRec r).day8 ∧
+      (normRec r).day8 < (if isLeap (fullYear (normRec r).yy) then 367 else 366) * 100000000 ∨
+      (yearEnd r = false ∧ (normRec r).day8 = r.day8 ∧ (normRec r).yy = r.yy) := by
+    by_cases hye : yearEnd r = true
+    · left
+      have e : (normRec r).day8 = 100000000 := by simp [normRec, hye]
+      rw [e]
+      exact ⟨Nat.le_refl _, by split <;> omega⟩
+    · right
+      have hye' : yearEnd r = false := by simpa using hye
+      exact ⟨hye', by simp [normRec, hye'], by simp [normRec, hye']⟩
+  have hnye : yearEnd (normRec r) = false := by
+    rcases hday with ⟨_, hlt⟩ | ⟨hye', e1, e2⟩
+    · simp only [yearEnd, beq_eq_false_iff_ne, ne_eq]; omega
+    · unfold yearEnd at hye' ⊢; rw [e1, e2]; exact hye'
+  have hday' : 100000000 ≤ (normRec r).day8 ∧
+      (normRec r).day8 ≤ (if isLeap (fullYear (normRec r).yy) then 367 else 366) * 100000000 := by
+    rcases hday with ⟨h1, hlt⟩ | ⟨_, e1, e2⟩
+    · exact ⟨h1, Nat.le_of_lt hlt⟩
+    · rw [e1, e2]; exact h.day
+  constructor
+  · exact ⟨h.norad, h.cospar, hyy', hday', h.ndot, (normUnfl_wide h.ndd).1, (normUnfl_wide h.bstar).1, h.elnb,
+      (normAngle_le _ h.inc).1, (normAngle_le _ h.raan).1, h.ecc, (normAngle_le _ h.argp).1, (normAngle_le _ h.ma).1, h.mm, h.revs, h.name⟩
+  · rw [normRec_of_not_yearEnd _ hnye]
+    simp only [normRec, (normUnfl_wide h.ndd).2, (normUnfl_wide h.bstar).2, (normAngle_le _ h.inc).2, (normAngle_le _ h.raan).2,
+      (normAngle_le _ h.argp).2, (normAngle_le _ h.ma).2]
+
+/-- a record inside the ranges of the format is its own second generation -/
+theorem normRec_inRange (r : Rec) (h : InRange r) : normRec r = r := by
+  have hye : yearEnd r = false := by
+    have := h.day.2
+    simp only [yearEnd, beq_eq_false_iff_ne, ne_eq]
+    omega
+  have hu : ∀ u, CanonUnfl u → normUnfl u = u := by
+    intro u hu; rcases hu with rfl | ⟨neg, m5, exp, rfl, _⟩ <;> rfl
+  have ha : ∀ v, v < 3600000 → normAngle v = v := by intro v hv; simp [normAngle]; omega
+  simp only [normRec, hye, Bool.false_eq_true, if_false, hu _ h.ndd, hu _ h.bstar, ha _ h.inc, ha _ h.raan, ha _ h.argp, ha _ h.ma]
+
+/-- **parse ∘ write ∘ parse = parse, from the second generation on**: write ANY record the writer can print (text `t1`),
+read it and write it again (`t2`), read and write once more: the third text is `t2`, character for character — including
+after the three carries (`360.0000`, day `N+1.00000000` at the end of a year, `00000-9`), where `t2 ≠ t1` shows
+`0.0000`, day `001.00000000` of the next year, `00000-0`. Inside the ranges of the format `t2 = t1` (`write_parse_id`). -/
+theorem offgrid_idempotent_from_second_generation (r : Rec) (h : WideRange r) :
+    ∃ t1 t2 p2 p3, writeRec r = .ok t1 ∧ rewrite t1 = .ok p2 ∧ tleStr p2 = t2 ∧ rewrite t2 = .ok p3 ∧ tleStr p3 = t2 ∧
+      writeRec (normRec r) = .ok t2 ∧ (InRange r → t2 = t1) := by
+  obtain ⟨p1, t1, hw1, _, hp1, _, ht1⟩ := wide_roundtrip r h
+  obtain ⟨h2, hfix⟩ := second_generation_fixed r h
+  obtain ⟨p2, t2, hw2, hf2, hp2, hs2, ht2⟩ := wide_roundtrip (normRec r) h2
+  rw [hfix] at ht2
+  refine ⟨t1, t2, p2, p2, hw1, ?_, hs2, ?_, hs2, hw2, ?_⟩
+  · unfold rewrite; rw [hp1]; simp only [bind, Except.bind]; rw [ht1]; exact hf2
+  · unfold rewrite; rw [hp2]; simp only [bind, Except.bind]; rw [ht2]; exact hf2
+  · intro hin
+    rw [normRec_inRange r hin, hw1] at hw2
+    injection hw2 with e
+    exact e.symm
+
+/-- the three carries at once: inclination `360.0000`, the day after the last of 2023, a drag term `00000-9` -/
+def carryRec : Rec :=
+  { issRec with yy := 23, day8 := 36600000000, inc4 := 3600000, ndd := .small true 0, bstar := .small false 123 }
+
+example : normRec carryRec = { issRec with yy := 24, day8 := 100000000, inc4 := 0, ndd := .zero, bstar := .small false 123 } := by decide
+
+
 end BeyondVerif.C12
